@@ -33,6 +33,11 @@ type outcome struct {
 	Unclosed []int         `json:"unclosed,omitempty"` // connections not seen closed 2 s after Shutdown returned nil (before Close)
 	Foreign  int           `json:"foreign,omitempty"`  // late dials that reached a listener that is not this case's proxy (port re-use)
 	Final    string        `json:"final,omitempty"`    // b: what a second Shutdown returned after everything was closed ("nil" expected: the counter is back to zero)
+	Calls    []*callObs    `json:"calls,omitempty"`    // family ctl: what was observed of every call
+	Gauge    float64       `json:"gauge,omitempty"`    // family runend: the listener's gauge of active connections after Run returned (polled for 3 s)
+	HaveGauge bool         `json:"have_gauge,omitempty"`
+	SignalAt time.Duration `json:"signal_at,omitempty"` // family runend: when the second signal was first sent
+	shutCalls int
 }
 
 // runCase executes one case against the real code and returns what was observed.
@@ -101,13 +106,21 @@ func runCase(c *Case) (*outcome, error) {
 	var closeOnce sync.Once
 
 	// --- initiate ---
+	runDone := make(chan struct{})
 	switch {
+	case len(c.Calls) > 0:
+		// a history of control calls (ctl.go): the listener is closed, then the calls are made
+		closeListenerB()
+		cr.runCalls(out)
 	case c.Kind == "a":
 		cr.dialMu.Lock()
 		cr.begun = true
 		cr.log.Add("X", 0)
 		cr.hp.Cancel()
 		cr.dialMu.Unlock()
+		if c.End == "signal" {
+			go cr.secondSignal(runDone)
+		}
 	case c.Op == "close":
 		if c.ListenerFirst {
 			closeListenerB()
@@ -124,7 +137,7 @@ func runCase(c *Case) (*outcome, error) {
 		}
 		cr.dialMu.Lock()
 		cr.begun = true
-		cr.log.Add("SC", 0)
+		cr.log.Add("SC", 0, c.TimeoutMs == 0, false)
 		cr.dialMu.Unlock()
 		ctx, cancel := context.WithCancel(context.Background()) // timeout 0: a context that is never done
 		if c.TimeoutMs > 0 {
@@ -144,10 +157,13 @@ func runCase(c *Case) (*outcome, error) {
 
 	// --- wait for the return ---
 	switch {
+	case len(c.Calls) > 0:
+		out.Result = "calls"
 	case c.Kind == "a":
 		select {
 		case e := <-cr.hp.Done():
 			cr.log.Add("XR", 0)
+			close(runDone)
 			out.Result = fmt.Sprintf("run:%v", e)
 			if !errors.Is(e, context.Canceled) {
 				cr.note("Run returned %v, want context.Canceled", e)
@@ -166,7 +182,7 @@ func runCase(c *Case) (*outcome, error) {
 		case e := <-shutRet:
 			out.HaveRet = true
 			out.IsNil = e == nil
-			cr.log.Add("SR", 0, e == nil)
+			cr.log.AddRet(0, strings.SplitN(resOf(e), ":", 2)[0])
 			switch {
 			case e == nil:
 				out.Result = "nil"
@@ -184,6 +200,17 @@ func runCase(c *Case) (*outcome, error) {
 	}
 	if c.Kind == "b" && !isClosed(cr.listenerClosed) {
 		closeListenerB()
+	}
+	if c.Family == "runend" && out.HaveRet {
+		// Run has returned: whatever ended the drain, nothing the listener accepted may be open
+		for end := time.Now().Add(3 * time.Second); ; {
+			out.Gauge = activeGauge(cr.reg)
+			out.HaveGauge = out.Gauge >= 0
+			if out.Gauge <= 0 || time.Now().After(end) {
+				break
+			}
+			time.Sleep(20 * time.Millisecond)
+		}
 	}
 
 	// --- Shutdown said nil: every connection that was being served must be closed already ---
@@ -205,7 +232,9 @@ func runCase(c *Case) (*outcome, error) {
 		}
 	}
 	if c.Kind == "b" {
-		closeOnce.Do(closeB)
+		if len(c.Calls) == 0 {
+			closeOnce.Do(closeB)
+		}
 		select {
 		case <-cr.serveRet:
 		case <-time.After(3 * time.Second):
@@ -226,11 +255,23 @@ func runCase(c *Case) (*outcome, error) {
 	if c.Kind == "b" {
 		// every connection is gone now: the count of open connections must be back to zero, i.e. a
 		// further Shutdown finds nothing to wait for
+		var sc *Event
+		if len(c.Calls) > 0 {
+			// … entered into the history like every other call
+			sc = cr.log.Add("SC", out.shutCalls, false, false)
+		}
 		ctx2, cancel2 := context.WithTimeout(context.Background(), 2500*time.Millisecond)
-		if e := cr.mp.Shutdown(ctx2); e == nil {
+		e := cr.mp.Shutdown(ctx2)
+		if e == nil {
 			out.Final = "nil"
 		} else {
 			out.Final = e.Error()
+		}
+		if sc != nil {
+			open := cr.tracker.snapshot()
+			r := cr.log.AddRet(out.shutCalls, strings.SplitN(resOf(e), ":", 2)[0])
+			out.Calls = append(out.Calls, &callObs{Op: "shutdown", N: out.shutCalls, CallAt: sc.T, RetAt: r.T, Ret: true, Result: resOf(e),
+				OwnErr: e == ctx2.Err(), DoneAt: sc.T + 2500*time.Millisecond, OpenAt: len(open), OpenIDs: open})
 		}
 		cancel2()
 	}
@@ -239,12 +280,26 @@ func runCase(c *Case) (*outcome, error) {
 	if c.Kind == "a" {
 		callOp = "X"
 	}
-	if c.Op != "close" {
-		evs = withDeadline(evs, callOp, timeout)
-		if c.TimeoutMs == 0 {
-			// configuration marker: the context handed to Shutdown never expires (the model starts from initNoLimit)
+	switch {
+	case len(c.Calls) > 0:
+		n := 0
+		for _, call := range c.Calls {
+			if call.Op == "shutdown" {
+				evs = withDeadline(evs, "SC", n, time.Duration(call.CtxMs)*time.Millisecond)
+				n++
+			}
+		}
+		evs = withDeadline(evs, "SC", n, 2500*time.Millisecond)
+	case c.Op != "close":
+		evs = withDeadline(evs, callOp, 0, timeout)
+		if c.TimeoutMs == 0 && c.Kind == "a" {
+			// configuration marker: shutdown timeout 0, the context run hands to Shutdown has no deadline
 			evs = append([]*Event{{Op: "NL"}}, evs...)
 		}
+	}
+	if c.Kind == "a" {
+		// configuration marker: ShutdownSignals is not empty (the default, or SIGUSR1 in the family runend)
+		evs = append([]*Event{{Op: "SG"}}, evs...)
 	}
 	out.History = evs
 	if e := find(evs, callOp); e != nil {
@@ -254,6 +309,9 @@ func runCase(c *Case) (*outcome, error) {
 		out.RetAt = e.T
 	} else if e := find(evs, "XR"); e != nil {
 		out.RetAt = e.T
+	}
+	if e := find(evs, "Z"); e != nil && c.Kind == "a" {
+		out.SignalAt = e.T
 	}
 	out.Foreign = int(cr.foreign.Load())
 	cr.notesMu.Lock()
@@ -337,6 +395,24 @@ func evaluate(ctx *core.Ctx, c *Case, out *outcome) {
 		ctx.SpecFail("Shutdown reports success only once every connection that was being served has been closed", "", doc, h,
 			fmt.Sprintf("Shutdown returned nil; connections %v were not closed 2s later (before Close)", out.Unclosed))
 	}
+	if len(c.Calls) > 0 {
+		evaluateCalls(ctx, c, out, doc, h)
+		return
+	}
+	if c.Family == "runend" && out.HaveRet {
+		ctx.Count("runend/" + c.End + "/" + strings.SplitN(out.Result, ":", 2)[0])
+		if out.HaveGauge && out.Gauge != 0 {
+			ctx.SpecFail("the proxy's count of open connections always returns to zero", "", doc, h,
+				fmt.Sprintf("Run returned (drain ended by %s); 3s later the listener's gauge of active connections is still %v", c.End, out.Gauge))
+		}
+		if !out.HaveGauge {
+			ctx.Disagree("the listener's gauge of active connections can be read from the proxy's registry", doc, "not found", "listener_cx_active")
+		}
+		if c.End == "signal" && out.SignalAt > 0 && out.RetAt > out.SignalAt+8*time.Second {
+			ctx.SpecFail("Shutdown otherwise returns the context's error", "", doc, h,
+				fmt.Sprintf("the second shutdown signal was sent %v after the cancellation (and every 25 ms from then on); Run returned only %v after it", out.SignalAt-out.CallAt, out.RetAt-out.SignalAt))
+		}
+	}
 	if c.Kind == "b" && out.HaveRet && !out.IsNil && out.RetAt < out.CallAt+timeout {
 		ctx.SpecFail("Shutdown returns the context's error only when the context is done", "", doc, h,
 			fmt.Sprintf("returned an error %v after the call, deadline %v", out.RetAt-out.CallAt, timeout))
@@ -346,6 +422,9 @@ func evaluate(ctx *core.Ctx, c *Case, out *outcome) {
 		finishedAt, all := allFinishedAt(c, out.History)
 		forced := find(out.History, "CC")
 		forcedEarly := forced != nil && forced.T < out.RetAt
+		if c.Family == "runend" && c.End != "drain" {
+			all = false // the drain of these cases is meant to be ended from outside
+		}
 		if all && !forcedEarly && finishedAt+1500*time.Millisecond < out.CallAt+timeout {
 			if c.Kind == "b" && !out.IsNil {
 				ctx.SpecFail("Shutdown reports success once every connection has finished (the counter returns to zero)", "", doc, h,
@@ -426,6 +505,11 @@ func Run(ctx *core.Ctx) {
 		"plus the shutdown-timeout matrix {0 = no limit, shorter than the in-flight work, long} x {slow origin, large body to a slow reader, open tunnel} on rigs a, b " +
 		"and on forwarder.HTTPServer (rig s); plus the late-dial family: CONNECT whose dial completes during the shutdown x rigs a, b x {direct, through an upstream proxy} x " +
 		"tunnel ended by {client, target, shutdown deadline} with echo traffic through the tunnel during the shutdown; " +
+		"plus control-call HISTORIES: on rig b 1-4 calls over {Shutdown(short ctx), Shutdown(long), Shutdown(no deadline), Shutdown(cancelled by its caller), Close}, one after " +
+		"the other or overlapping, against connections in flight at the origin / idle keep-alive / in a tunnel / with a half-sent head that drain late or never, every call judged " +
+		"(nil => every accepted socket already closed by the proxy; error => the call's own ctx.Err(), not before that context was done), a last Close and a last Shutdown appended; " +
+		"on rig a the drain of Run ended by a second shutdown signal (SIGUSR1 to the child process), by the shutdown timeout, or by itself, with connections that do not drain: " +
+		"after Run returned every accepted socket closed, the listener's active-connections gauge 0, nothing served any more; " +
 		"non-trivial = at least one connection is in a phase other than idle when the shutdown is placed; distinct = distinct case scripts")
 	for _, raw := range core.LoadCorpus(ctx.Root, "C11") {
 		Replay(ctx, raw)
@@ -452,30 +536,47 @@ func Run(ctx *core.Ctx) {
 			}
 		}()
 	}
+	// development aid: VERIF_C11_ONLY=general,matrix,latedial,ctl,runend,micro restricts the run to some families
+	// (the random stream of the others is still drawn, so the cases of a family are what they are in a full run)
+	only := os.Getenv("VERIF_C11_ONLY")
+	want := func(f string) bool { return only == "" || strings.Contains(","+only+",", ","+f+",") }
+	send := func(f string, c *Case) {
+		if want(f) {
+			jobs <- c
+		}
+	}
 	for i := 0; i < n; i++ {
 		r := ctx.Rng.Sub()
 		c := gen(r)
-		jobs <- c
+		send("general", c)
 	}
 	// the shutdown-timeout matrix (matrix.go): {no limit, short, long} x {slow origin, slow reader, tunnel, mixes}
 	// on rig a, a slice of it on rig b, and the API server (rig s); queued before the cheap race batches so
 	// that its second-long cases overlap with them
 	for i := 0; i < ctx.N(15, 150); i++ {
-		jobs <- genMatrix(ctx.Rng.Sub(), "a", i)
+		send("matrix", genMatrix(ctx.Rng.Sub(), "a", i))
 	}
 	for i := 0; i < ctx.N(3, 45); i++ {
-		jobs <- genMatrix(ctx.Rng.Sub(), "b", i*4) // i*4: class i%3, work set varies
+		send("matrix", genMatrix(ctx.Rng.Sub(), "b", i*4)) // i*4: class i%3, work set varies
 	}
 	for i := 0; i < ctx.N(6, 45); i++ {
-		jobs <- genServer(ctx.Rng.Sub(), i)
+		send("matrix", genServer(ctx.Rng.Sub(), i))
 	}
 	// the late-dial family (latedial.go): CONNECT whose dial completes during the shutdown, {a, b} x {direct,
 	// upstream proxy} x {ended by client, target, deadline}
 	for i := 0; i < ctx.N(24, 360); i++ {
-		jobs <- genLateDial(ctx.Rng.Sub(), i)
+		send("latedial", genLateDial(ctx.Rng.Sub(), i))
+	}
+	// control-call histories (ctl.go): sequences of Shutdown(short | long | no deadline | cancelled) / Close, sequential
+	// and overlapping, on rig b; the drain of Run ended by a second signal / the timeout / by itself on rig a
+	for i := 0; i < ctx.N(24, 400); i++ {
+		send("ctl", genCtl(ctx.Rng.Sub(), i))
+	}
+	for i := 0; i < ctx.N(12, 144); i++ {
+		send("runend", genRunEnd(ctx.Rng.Sub(), i))
 	}
 	for i := 0; i < ctx.N(32, 400); i++ {
-		jobs <- &Case{Kind: "c", Trials: 250, MicroSeed: ctx.Rng.U64()}
+		send("micro", &Case{Kind: "c", Trials: 250, MicroSeed: ctx.Rng.U64()})
 	}
 	close(jobs)
 	wg.Wait()
@@ -495,6 +596,17 @@ func runAndEvaluate(ctx *core.Ctx, c *Case, ch *child) *child {
 	}
 	if c.Family != "" {
 		ctx.Count("family/" + c.Family + "/" + c.Kind + "/" + c.route())
+	}
+	if c.Family == "ctl" {
+		var ls []string
+		for _, call := range c.Calls {
+			l := call.label()
+			if call.Start == "par" {
+				l = "||" + l
+			}
+			ls = append(ls, l)
+		}
+		ctx.Count("ctl/history/" + strings.Join(ls, ","))
 	}
 	nontrivial := false
 	for _, s := range c.Conns {
@@ -626,7 +738,7 @@ func shape(h string) string {
 		s += "silent,"
 	}
 	switch {
-	case strings.Contains(h, "SR:1"):
+	case strings.Contains(h, "SR:0:n"):
 		s += "nil"
 	default:
 		s += "deadline"
